@@ -182,13 +182,23 @@ def read_hashes(path, all_set, nontrivial_set):
 
 
 # ---------------------------------------------------------------- shrinking
-def ddmin(items, test, budget=400):
+SHRINK_WALL_S = 150        # per ddmin call: shrinking is best effort, a slow (e.g. 300-thread, livelocking) witness is kept as it is
+
+
+def ddmin(items, test, budget=400, wall_s=None):
     """classic ddmin: smallest sublist of items for which test(sublist) is True.
     test(items) is assumed True.  Returns (sublist, tests_run)."""
     n = 2
     tests = 0
     items = list(items)
-    while len(items) >= 2 and tests < budget:
+    t_end = time.time() + (wall_s if wall_s is not None else SHRINK_WALL_S)
+    real_test = test
+
+    def test(x):        # past the deadline every candidate is refused: the current best stands
+        if time.time() > t_end:
+            return False
+        return real_test(x)
+    while len(items) >= 2 and tests < budget and time.time() <= t_end:
         chunk = max(1, len(items) // n)
         subsets = [items[i:i + chunk] for i in range(0, len(items), chunk)]
         reduced = False
